@@ -13,6 +13,7 @@ import (
 	"path/filepath"
 	"runtime/debug"
 	"strconv"
+	"time"
 
 	"github.com/junioryono/godi/v4/verifh/eng"
 )
@@ -67,6 +68,7 @@ func main() {
 		}
 		// a resolution that does not terminate must die quickly, not after eating 1 GB of stack
 		debug.SetMaxStack(64 << 20)
+		r.StartWatchdog(*prop, 30*time.Second)
 		c := &eng.Ctx{Prop: *prop, Tier: *tier, Seed: *seed, Shard: *shard, NShards: *nshards, From: *from, Only: *only, R: r}
 		p.Run(c)
 		r.Finish()
